@@ -271,31 +271,6 @@ Proof.
     eapply forall2b_Forall2; [|exact H3]. apply ddl_equivb_sound.
 Qed.
 
-Lemma check_C09_sound i o : check_C09 i o = true -> C09_holds i o.
-Proof.
-  destruct i as [x|up], o as [r rr sql|down upup ok]; cbn [check_C09 C09_holds]; try discriminate; intros H;
-    apply andb_true_iff in H as [H1 H2]; split.
-  - intros x' ->. apply decb_true in H1. exact H1.
-  - intros x'' ->. apply andb_true_iff in H2 as [H2 H3]. split; [apply ddl_equivb_top_sound; auto|auto].
-  - intros d ->. apply andb_true_iff in H1 as [H1 H3]. apply decb_true in H1. split; auto.
-  - intros u ->. eapply forall2b_Forall2; [|exact H2]. apply ddl_equivb_top_sound.
-Qed.
-
-(* ------------------------------------------------------------------ the model satisfies the property on its class *)
-
-Lemma model_C09_holds i : inclass_C09 i = true -> C09_holds i (model_C09 i).
-Proof.
-  destruct i as [x|up]; cbn [inclass_C09 model_C09 C09_holds]; intros Hs; split.
-  - intros x' H. apply reverse_top_kind; auto.
-  - intros x'' H. split; [|reflexivity].
-    destruct (reverse_top x) as [x'|e] eqn:Hx; cbn [bind] in H; [|discriminate].
-    destruct (reverse_top_involutive _ _ Hs Hx) as [y [Hy He]]. rewrite Hy in H. inversion H; subst. exact He.
-  - intros d H. split; [apply reverse_ops_kinds; auto|reflexivity].
-  - intros u H.
-    destruct (reverse_ops up) as [d|e] eqn:Hd; cbn [bind] in H; [|discriminate].
-    destruct (reverse_ops_involutive _ _ Hs Hd) as [y [Hy He]]. rewrite Hy in H. inversion H; subst. exact He.
-Qed.
-
 (* the kinds clause needs no class at all *)
 Lemma model_C09_kinds_everywhere x x' : reverse_top x = Ok x' -> tkind_of x' = inverse_tkind (tkind_of x).
 Proof. apply reverse_top_kind. Qed.
